@@ -415,8 +415,15 @@ class DescriptorTransaction(_TransactionBase):
 
     def _increment_parent_descriptor_version(self, proc: TransactionResult,
                                              descriptor_container: AbstractDescriptorProtocol):
-        parent_descriptor_container = self._mdib.descriptions.handle.get_one(
-            descriptor_container.parent_handle, allow_none=True)
+        parent_handle = descriptor_container.parent_handle
+        tr_item = self.descriptor_updates.get(parent_handle)
+        if tr_item is not None and tr_item.old is not None and tr_item.new is not None:
+            # the parent is updated by this transaction itself: that update increments its version and reports it
+            return
+        if any(d.Handle == parent_handle for d in proc.descr_updated):
+            # already incremented and reported for another child in this transaction
+            return
+        parent_descriptor_container = self._mdib.descriptions.handle.get_one(parent_handle, allow_none=True)
         if parent_descriptor_container is not None:
             parent_descriptor_container.increment_descriptor_version()
             proc.descr_updated.append(parent_descriptor_container.mk_copy())
